@@ -15,6 +15,11 @@ void* yk_ap[YK_NALLOC];
 uint64_t yk_an[YK_NALLOC], yk_aa[YK_NALLOC];
 uint8_t yk_al[YK_NALLOC];
 uint64_t yk_clock_now;
+uint32_t yk_layers;
+uint32_t yk_nev;
+uint32_t yk_ev_kind[YK_NEV];
+const void* yk_ev_ptr[YK_NEV];
+uint64_t yk_ev_tag[YK_NEV];
 const void* yk_watch_ptr;
 uint32_t yk_watch_stores, yk_watch_loads;
 void* yk_thread_fn[4];
